@@ -1103,6 +1103,9 @@ impl BytecodeVM {
                     saved_registers: Vec::new(),
                     saved_call_stack: Vec::new(),
                     saved_try_stack: Vec::new(),
+                    saved_env_stack: Vec::new(),
+                    saved_exception: None,
+                    saved_completion: None,
                     yield_result_register: None,
                     func_env: None,
                     current_env: None,
@@ -1141,6 +1144,9 @@ impl BytecodeVM {
                     saved_registers: Vec::new(),
                     saved_call_stack: Vec::new(),
                     saved_try_stack: Vec::new(),
+                    saved_env_stack: Vec::new(),
+                    saved_exception: None,
+                    saved_completion: None,
                     yield_result_register: None,
                     func_env: None,
                     current_env: None,
